@@ -218,7 +218,7 @@ func c02Case(c *Ctx, i int64, prop string) {
 			// C02: read back
 			type rd struct{ conc, mode int }
 			var rds []rd
-			if thorough || len(res.sink) < 100000 {
+			if len(res.sink) < 100000 || (thorough && len(res.sink) < 1<<20) {
 				for _, cc := range concLevels {
 					for m := 0; m < numReadModes; m++ {
 						rds = append(rds, rd{cc, m})
@@ -227,6 +227,9 @@ func c02Case(c *Ctx, i int64, prop string) {
 			} else {
 				k := int(i) + ii + del
 				rds = append(rds, rd{concLevels[k%4], k % numReadModes}, rd{concLevels[(k+1)%4], (k + 2) % numReadModes})
+				if thorough {
+					rds = append(rds, rd{concLevels[(k+2)%4], (k + 1) % numReadModes}, rd{concLevels[(k+3)%4], (k + 3) % numReadModes})
+				}
 			}
 			for _, r := range rds {
 				rr := readStream(c, res.sink, r.conc, r.mode, cfg.blockMax(), g, gen.ReadPlain)
